@@ -23,6 +23,12 @@ def corpus():
         "progress.seq s1,s1,s1,S1,s1,T",
         "progress.seq s9,s8,s7,S1,s6,s5,S1,s10,T",
         "progress.seq u5,s3,u7,T",
+        # whole runs: users mode (back-to-back iterations on one worker) with slow cleanups; a second run on the same metrics instance
+        "run prop=C17 mode=users conc=1 dur=4000 body=10 maxit=3 cleanup=800",
+        "run prop=C17 mode=users conc=2 dur=4000 body=20 maxit=5 cleanup=700",
+        "run prop=C17 mode=constant rate=2/100ms dur=400 conc=4 body=15 cleanup=650",
+        "run prop=C17 mode=users conc=2 dur=600 body=20 maxit=6 prerun=2",
+        "run prop=C17 mode=constant rate=3/100ms dur=400 conc=3 body=10 prerun=2",
         "scn.measuremany 4000", "scn.measure 30 120", "scn.measure 10 150 failnow", "scn.measure 10 150 panic", "scn.measure 10 120 fail", "scn.measure 10 120 require",
     ]
 
